@@ -120,6 +120,7 @@
 -/
 import JdProofs.V1MergeRender
 import JdProofs.V1PatchRender
+import JdProofs.V1JsonText
 
 namespace Jd.Props.C18
 open Jd Jd.Spec
@@ -479,5 +480,53 @@ example : (atoi? "+5").isSome = true ∧ V1R.rtok "0" = .sori "0" ∧
     V1.asKey (V1R.rtok "0") = some "0" :=
   ⟨by decide, v1_integer_looking_token_is_deferred (by decide),
     v1_key_token_is_read_back_as_the_key (by decide)⟩
+
+/-! ## The JSON TEXT layer of the v1 renderings — proofs in JdProofs/V1JsonText.lean (ns `Jd.V1T`)
+
+   The theorems above are about the op list / merge document VALUES; these are about the TEXT that v1
+   `RenderMerge()` / `RenderPatch()` return and `ReadMergeString` / `ReadPatchString` parse, through the JSON
+   codec of JdModel/Text.lean. Codec hypothesis: `JText.NumOK nc` (the strconv graph supplied by the harness)
+   on the number tokens of the INPUT documents only — the printed values are parts of `a` and `b`. -/
+
+/-- v1 merge text, RFC clause: the printed text parses to a patch document whose RFC 7386 application to `a` is `b` -/
+theorem v1_merge_text_rfc (L : FloatLaws) (nc : NumCodec) {m : V1.Metas} (hm : Jd.V1M.MergeMode m)
+    (a b : Json) (haw : a.wf = true) (har : a.rawDoc = true)
+    (hbw : b.wf = true) (hbr : b.rawDoc = true) (hbn : b.nullFree = true)
+    (hbf : b.finiteNums = true) (hbv : Yaml.voidFree b = true) (hbN : JText.NumOK nc b = true)
+    (hne : V1.equals m a b = false) :
+    ∃ text p, V1.renderMergeM nc (V1.liftDiff (V1.diffM m a b)) = .ok (some text) ∧
+      parseJson nc text = some p ∧ p.isVoid = false ∧ p.isNull = false ∧
+      specEq (mergePatch a p) b = true :=
+  Jd.V1T.v1_merge_text_rfc L nc hm a b haw har hbw hbr hbn hbf hbv hbN hne
+
+/-- v1 JSON Patch text, RFC clause (list mode): the printed text parses to an op list (decoded by the
+    INDEPENDENT `Spec.opsOfJson`) of test/remove/add ops whose RFC 6902 evaluation on `a` yields `b` -/
+theorem v1_patch_text_rfc (L : FloatLaws) {N : Nat} (I : Jd.V1P.IdxLaws N) (nc : NumCodec)
+    (m : V1.Metas) (hm : Jd.V1P.ListMode m) (a b : Json)
+    (ha1 : a.listDoc = true) (ha2 : a.wf = true) (ha3 : a.finiteNums = true)
+    (ha4 : Yaml.voidFree a = true) (ha5 : Jd.V1P.lenLe N a = true) (ha6 : JText.NumOK nc a = true)
+    (hb1 : b.listDoc = true) (hb2 : b.wf = true) (hb3 : b.finiteNums = true)
+    (hb4 : Yaml.voidFree b = true) (hb6 : JText.NumOK nc b = true)
+    (hdash : ∀ h ∈ V1.diffM m a b, Jd.V1R.noDashP h.path = true) :
+    ∃ text doc sops r,
+      V1.renderPatchM nc (V1.liftDiff (V1.diffM m a b)) = .ok (some text) ∧
+      parseJson nc text = some doc ∧ Spec.opsOfJson doc = some sops ∧
+      (∀ o ∈ sops, o.op = "test" ∨ o.op = "remove" ∨ o.op = "add") ∧
+      eval a sops = some r ∧ specEq r b = true ∧ specEq b r = true :=
+  Jd.V1T.v1_patch_text_rfc L I nc m hm a b ha1 ha2 ha3 ha4 ha5 ha6 hb1 hb2 hb3 hb4 hb6 hdash
+
+/-- v1 JSON Patch text, read-back clause: `ReadPatchString` of the printed text, applied to `a`, yields `b` -/
+theorem v1_patch_text_readback (L : FloatLaws) {N : Nat} (I : Jd.V1P.IdxLaws N) (hN : N ≤ 2 ^ 63) (nc : NumCodec)
+    (m : V1.Metas) (hm : Jd.V1P.ListMode m) (a b : Json)
+    (ha1 : a.listDoc = true) (ha2 : a.wf = true) (ha3 : a.finiteNums = true)
+    (ha4 : Yaml.voidFree a = true) (ha5 : Jd.V1P.lenLe N a = true) (ha6 : JText.NumOK nc a = true)
+    (hb1 : b.listDoc = true) (hb2 : b.wf = true) (hb3 : b.finiteNums = true)
+    (hb4 : Yaml.voidFree b = true) (hb6 : JText.NumOK nc b = true)
+    (hdash : ∀ h ∈ V1.diffM m a b, Jd.V1R.noDashP h.path = true) :
+    ∃ text d' r,
+      V1.renderPatchM nc (V1.liftDiff (V1.diffM m a b)) = .ok (some text) ∧
+      V1.readPatchM nc text = .ok d' ∧ V1.patchP a d' = .ok r ∧
+      V1.equals m r b = true ∧ specEq r b = true ∧ specEq b r = true :=
+  Jd.V1T.v1_patch_text_readback L I hN nc m hm a b ha1 ha2 ha3 ha4 ha5 ha6 hb1 hb2 hb3 hb4 hb6 hdash
 
 end Jd.Props.C18
